@@ -68,6 +68,9 @@ class Fn:
 
     def where(self, node=None):
         n = node if node is not None and hasattr(node, 'lineno') else self.node
+        src = getattr(n, '_src', None)
+        if src:     # a statement of a helper inlined by sa/normal.py: report its own line
+            return '%s:%d (in %s, inlined at line %d)' % (os.path.relpath(self.file, REPO), src[-1], src[0], n.lineno)
         return '%s:%d' % (os.path.relpath(self.file, REPO), n.lineno)
 
     def __repr__(self):
@@ -100,9 +103,9 @@ class Repo:
                 self.trees[m] = ast.parse(text, filename=p)
             except SyntaxError as e:
                 raise AnalysisError('module %s does not parse: %s' % (m, e))
-            if normalise:
-                from . import normal
-                normal.normalise_module(self.trees[m], m, use_reference=(normalise != 'noref'), stats=self.renamed)
+        if normalise:
+            from . import normal
+            normal.normalise_repo(self.trees, use_reference=(normalise != 'noref'), stats=self.renamed)
         for m, t in self.trees.items():
             self._index(m, t)
         self._callgraph = None
@@ -333,6 +336,7 @@ class Finding:
             self.statement = self.statement[:300]
         self.status = VIOLATION
         self.known = None
+        self.absent = isinstance(node, (ast.FunctionDef, ast.AsyncFunctionDef, ast.ClassDef, ast.Module))
 
     def as_dict(self):
         return dict(construct=self.fn.construct if self.fn else None, where=self.fn.where(self.node) if self.fn else None,
@@ -422,6 +426,11 @@ def run_obligation(ob, repo, tier, known):
         status, err = ERROR, 'recursion limit in analysis: %s' % e
     except Exception as e:   # a crash of the checker is an analysis error, never a violation
         status, err = ERROR, 'checker exception %s: %s @ %s' % (type(e).__name__, e, traceback.format_exc().strip().split('\n')[-3:])
+    if status != ERROR and os.environ.get('VERIF_ABSENT') == 'error':
+        definite = [f for f in ctx.findings if not f.absent]
+        if ctx.findings and not definite:
+            status, err = ERROR, 'expected construct not found: ' + '; '.join(f.msg for f in ctx.findings[:3])
+        ctx.findings = definite
     if status != ERROR:
         for f in ctx.findings:
             k = match_known(known, ob.prop, ob.oid, f)
